@@ -301,4 +301,20 @@ def closePhase (s : State) (closing : List (Nat × Nat)) : State :=
       if p.status = .terminated ∨ p.status = .finished then p else { p with status := .terminated }) st.props }) s1
   { s2 with used := s2.used - released }
 
+/-! ## real payment of the payload-v1 withdrawals (`CRCProposalRealWithdraw`)
+
+Withdrawals are numbered in the order they were accepted; `pending` = the numbers still in `WithdrawableTxInfo`. -/
+
+/-- the per-hash loop of `CRCProposalRealWithdrawTransaction.SpecialContextCheck`: every listed withdrawal must be
+    pending (then recipient and amount are those recorded) and must not have been listed before (`seen`). -/
+def checkRealWd (pending : List Nat) : List Nat → List Nat → Option String
+  | _, [] => none
+  | seen, i :: t =>
+    if i ∉ pending then some "unknown"
+    else if i ∈ seen then some "dup"
+    else checkRealWd pending (i :: seen) t
+
+/-- `processCRCRealWithdraw`: the listed withdrawals leave `WithdrawableTxInfo` -/
+def applyRealWd (pending l : List Nat) : List Nat := pending.filter (fun i => i ∉ l)
+
 end ElaVerif.Proposal
